@@ -77,7 +77,24 @@ def mkPage (slots : List (Bytes × Tuple)) (lps : List LP) (freeLen : Nat) (vers
   { hdr0 := zeros 12, special := 8192 - tailLen, version, prune := 0, lps,
     free := zeros freeLen, slots, tail := zeros tailLen }
 
-def genPage (size : Nat) : Gen Page := do
+/-- a page that has every invariant of `Page.WF` -/
+def pageWF (p : Page) : Bool := decide p.WF
+
+/-- two NORMAL pointers name the same slot (tuple storage shared: outside `Page.WF`, PostgreSQL never does that) -/
+def pageHasDup (p : Page) : Bool := !decide p.normalSlots.Nodup
+
+def blockWF : Block → Bool
+  | .page p => pageWF p
+  | .zero => true
+
+def blockHasDup : Block → Bool
+  | .page p => pageHasDup p
+  | .zero => false
+
+/-- `allowDup`: one case in eight gets a second NORMAL pointer to an already pointed-at slot — such a page is outside
+`Page.WF` (the spec is silent about it; ParsePage reports the shared tuple once: fix heap/02).  Generators of
+well-formed pages (the default) never do that. -/
+def genPage (size : Nat) (allowDup : Bool := false) : Gen Page := do
   let nSlots ← match ← Gen.below 12 with
     | 0 => pure 0
     | 1 | 2 => pure 1
@@ -105,7 +122,14 @@ def genPage (size : Nat) : Gen Page := do
   let mut lps : Array LP := #[]
   for i in [0:k] do lps := lps.push (.normal i)
   if k > 0 then
-    if ← Gen.prob 1 8 then lps := lps.push (.normal (← Gen.below k))
+    if ← Gen.prob 1 8 then
+      let d ← Gen.below k
+      if allowDup then
+        lps := lps.push (.normal d)
+        -- sometimes a whole run of aliases of the same slot
+        if ← Gen.prob 1 4 then
+          let extra := min (← Gen.range 1 (8 + 8 * size)) (budget / 4)    -- `budget` = bytes still free in the page
+          for _ in [0:extra] do lps := lps.push (.normal d)
   for _ in [0:nOther] do
     let fl ← Gen.oneOf [0, 2, 3]
     let off ← if ← Gen.prob 1 2 then pure 0 else Gen.below 32768
@@ -149,20 +173,20 @@ def genFullPointerPage : Gen Page := do
   let slack := 8192 - 24 - 4 * n - 24 * n
   return mkPage slots.toList lps (← Gen.oneOf [0, slack])
 
-def genBlock (size : Nat) : Gen Block := do
+def genBlock (size : Nat) (allowDup : Bool := false) : Gen Block := do
   match ← Gen.below 28 with
   | 0 | 1 | 2 | 3 => return .zero
   | 4 => return .page (← genMaxTuplePage)
-  | 5 => if size ≥ 3 then return .page (← genFullPointerPage) else return .page (← genPage size)
-  | _ => return .page (← genPage size)
+  | 5 => if size ≥ 3 then return .page (← genFullPointerPage) else return .page (← genPage size allowDup)
+  | _ => return .page (← genPage size allowDup)
 
-def genHeap (size : Nat) : Gen (List Block × Bytes) := do
+def genHeap (size : Nat) (allowDup : Bool := false) : Gen (List Block × Bytes) := do
   let n ← match ← Gen.below 12 with
     | 0 => pure 0
     | 1 | 2 => pure 1
     | 3 => Gen.range 1 (min 12 (2 + 2 * size))
     | _ => Gen.range 1 (2 + size)
-  let bs ← Gen.listOf n (genBlock size)
+  let bs ← Gen.listOf n (genBlock size allowDup)
   let tl ← match ← Gen.below 4 with
     | 0 => Gen.range 1 8191
     | 1 => Gen.oneOf [8191, 1, 24, 4096]
